@@ -525,6 +525,51 @@ func c09Mirror(p *Prog, r *Report) {
 					if nt, isN := rt.(*types.Named); isN && (nt.Obj().Name() == owner || (nt.Obj().Name() == listTypeName && owner == "Node")) {
 						ok2 = true
 					}
+				} else if fi.Decl != nil && !fi.Obj.Exported() && shortPath(fi.Pkg.PkgPath) == "internal/model/core" {
+					// a method written as an unexported function of the package: it takes the owner (pointer) as a
+					// parameter and is called only from the owner's (or the list's) methods
+					takesOwner := false
+					for i := 0; i < fi.Sig().Params().Len(); i++ {
+						pt := fi.Sig().Params().At(i).Type()
+						if pp, isP := pt.(*types.Pointer); isP {
+							pt = pp.Elem()
+						}
+						if nt, isN := pt.(*types.Named); isN && nt.Obj().Name() == owner {
+							takesOwner = true
+						}
+					}
+					callersOK, callers := true, 0
+					for _, ck := range sortedFuncKeys(p) {
+						c := p.Funcs[ck]
+						if c.Decl == nil || c.Decl.Body == nil || c == fi {
+							continue
+						}
+						calls := false
+						ast.Inspect(c.Decl.Body, func(y ast.Node) bool {
+							if ce, isC := y.(*ast.CallExpr); isC && p.staticCallee(c.Pkg, ce) == fi {
+								calls = true
+							}
+							return true
+						})
+						if !calls {
+							continue
+						}
+						callers++
+						okCaller := false
+						if c.Decl.Recv != nil && c.Pkg == fi.Pkg {
+							rt := c.Sig().Recv().Type()
+							if pp, isP := rt.(*types.Pointer); isP {
+								rt = pp.Elem()
+							}
+							if nt, isN := rt.(*types.Named); isN && (nt.Obj().Name() == owner || (nt.Obj().Name() == listTypeName && owner == "Node")) {
+								okCaller = true
+							}
+						}
+						if !okCaller {
+							callersOK = false
+						}
+					}
+					ok2 = takesOwner && callersOK && callers > 0
 				}
 				r.Check(ok2, "C09.d", k+"#writes "+canonTypeName("internal/model/core." + owner)[len("internal/model/core."):]+"."+fv.Name(), p.pos(l), "written by a method of "+owner,
 					fmt.Sprintf("%s writes %s.%s from outside the type's own methods: the list/array mirror discipline can no longer be established", k, owner, fv.Name()))
